@@ -149,6 +149,27 @@ def compile_unit(prop, unit, race):
 
 
 def run_shard(binpath, p, unit, prop, tier, seed, shard, nshards, only_case, watchdog):
+    """Run one shard; re-run it once if the process died inside the Go runtime's
+    own all-goroutine traceback (runtime.Stack(all=true), which some harnesses
+    call to detect that every goroutine is parked): that crash (SIGSEGV in
+    runtime.(*unwinder).next on goroutine 0, seen about once per several
+    million calls) is a fault of the instrumentation, not of lnd, and cases
+    are a pure function of (seed, index), so the re-run covers the same cases."""
+    r = run_shard_once(binpath, p, unit, prop, tier, seed, shard, nshards, only_case, watchdog)
+    if r["rc"] == 2:
+        try:
+            head = open(r["log"], errors="replace").read(20000)
+        except Exception:
+            head = ""
+        if "SIGSEGV" in head and "runtime.tracebackothers" in head and "runtime.Stack" in head:
+            r2 = run_shard_once(binpath, p, unit, prop, tier, seed, shard, nshards, only_case, watchdog)
+            r2["wall"] += r["wall"]
+            r2["retried_after_runtime_stack_crash"] = True
+            return r2
+    return r
+
+
+def run_shard_once(binpath, p, unit, prop, tier, seed, shard, nshards, only_case, watchdog):
     bd = build_dir()
     outdir = os.path.join(bd, "out")
     os.makedirs(outdir, exist_ok=True)
@@ -438,6 +459,11 @@ def main():
             "shards": nshards, "race_build": race,
             "wall_s": round(max(r["wall"] for r in results), 1),
         }
+        for r in results:
+            if r.get("retried_after_runtime_stack_crash"):
+                notes[f"{unit['name']}.shard{r['shard']}.rerun"] = (
+                    "re-run once after the Go runtime crashed inside runtime.Stack(all) "
+                    "(harness instrumentation); same cases")
         for k, v in m["counters"].items():
             kk = f"{unit['name']}.{k}"
             total_counters[kk] = v
